@@ -85,7 +85,7 @@ NEXT_SPEC = r'''
             (r is FlushAndRestart ==> final(self).buffer@.len() == 0 && !final(self).received_end && final(self).last_watermark is None),   // #obl:reorder.flush_and_restart_only_when_empty
 '''
 def build(x):
-    pieces = [S.VECDEQUE_FRONT, S.sat_add('i64'), PRELUDE, x.enum(FO, 'StreamElement'), x.struct(F, 'TimestampedItem')]
+    pieces = [S.VECDEQUE_FRONT, S.OPTION_IS_SOME_AND, S.sat_add('i64'), PRELUDE, x.enum(FO, 'StreamElement'), x.struct(F, 'TimestampedItem')]
     st = x.struct(F, 'Reorder'); st.text = '#[verifier::reject_recursive_types(Op)]\n' + st.text
     pieces += [st, SPEC_IMPL]
     nx = x.method(F, 'Reorder', 'next', trait='Operator')
